@@ -57,6 +57,7 @@ func VerifH_C20_Mux() {
 	nh := verifChoice("handlers", 3) + 1 // 1, 2 or 3 matching handlers
 	mux := &ServeMux{}
 	seen := 0
+	var handed []*Message
 	for i := 0; i < nh; i++ {
 		filter := "#"
 		if i == 1 {
@@ -67,11 +68,20 @@ func VerifH_C20_Mux() {
 			verifSameMsg(m, keep, "C20.mux_handler_sees_original")
 			verifAssert(m != orig, "C20.mux_handler_gets_copy")
 			verifMutate(m)
+			handed = append(handed, m) // the handler keeps its copy beyond the call (e.g. hands it to a worker)
 		}))
 	}
 	mux.Serve(orig)
 	verifReach("served")
 	verifAssert(seen == nh, "C20.mux_all_handlers_ran")
+	for i := range handed {
+		for j := i + 1; j < len(handed); j++ {
+			verifAssert(handed[i] != handed[j], "C20.mux_each_handler_own_object")
+		}
+		// still exactly as its handler left it: not rewritten for a later handler
+		verifAssert(verifStrEq(handed[i].Topic, "mutated"), "C20.mux_kept_copy_not_rewritten")
+		verifAssert(handed[i].ID == keep.ID^0xFFFF, "C20.mux_kept_copy_not_rewritten")
+	}
 	verifSameMsg(orig, keep, "C20.mux_caller_message_unchanged")
 	if backing != nil {
 		verifReach("spare-capacity")
